@@ -168,6 +168,16 @@ CHECKS["C18"] = dict(
     note="Trusted: antlr4 runtime semantics of the ATNs (C14), z3; E2 part: as the other E2 checks. Bounded by M, N and the skeleton family.",
 )
 
+CHECKS["C10"] = dict(
+    engine=E1, category="model_checking", design="§3 C10",
+    technique="SMT (z3): bounded CFG/NFA equivalence of the shipped automata with blackbird.g4 (sentence <=> accepted); symbolic execution of the real error listener on harvested parser-error states with symbolic message/offending text (z3 strings) and line/column; concrete replay of single-token mutants through loads",
+    text="O1: 'accepted iff sentence' is the bounded language equivalence of C14 (token sequences <= N, lexer strings <= M). O2: the real syntaxError runs on every distinct "
+         "parser-error state harvested from single-token mutants of a corpus, with message text, offending text, line and column symbolic; z3 decides on every path that a "
+         "BlackbirdSyntaxError with the prefix 'Blackbird SyntaxError (line L:C+1)' is raised. O3: every mutant goes through loads (class and position), concretely. "
+         "The lower bound on the reported position (never earlier than the first offending token) is not decided.",
+    note="Trusted: antlr4 runtime (reports exactly the non-sentences, calls the listener), z3 (sequence theory for O2). Error states are sampled by mutation (values inside a state are symbolic). Bounded by N, M and the corpus.",
+)
+
 NOT_YET = "check not built yet in this round (see DESIGN.md §3 for the plan); not claimed"
 
 
